@@ -112,6 +112,14 @@ def run(ctx):
     size = aenv.lin(arg(gc, 1))
     chk.ob('L2', 'message-buffer-is-limit-plus-one', cap is not None and cap == F_LOG + Lin.const(1), gc.where(), A.name,
            'the message buffer holds %s bytes, expected log_message_max_length + 1' % cap, how='malloc(%s)' % cap)
+    def msg_reset(e):
+        if e.k == 'BinaryOperator' and e['op'] == '=':
+            l = strip(e.ch[0])
+            return l.k == 'ArraySubscriptExpr' and (decl_of(l.ch[0]) or {}).get('id') == (msg or {}).get('id') and \
+                strip(l.ch[1]).get('v') == 0 and strip(e.ch[1]).get('v') == 0
+        return False
+    chk.ob('L2', 'message-starts-empty', msg is not None and C.always_preceded(A, gc, msg_reset), gc.where(), A.name,
+           'the freshly allocated message buffer is not set to "" before the expansion appends to it')
     chk.ob('L2', 'message-size-matches-buffer', size is not None and cap is not None and size == cap, gc.where(), A.name,
            'generateFromFormat is told the message buffer has %s bytes, it has %s' % (size, cap))
     # in G the message parameter is only written through the bounded append with the size parameter
@@ -177,8 +185,49 @@ def run(ctx):
             chk.ob('L3', 'template-buffer[%s]' % f.name, capb is not None and size == capb, c.where(), f.name,
                    'template expanded into a %s-byte buffer but announced as %s bytes' % (capb, size),
                    how='fixed buffer of %s bytes, limit %s' % (capb, size))
+            # the expansion APPENDS to its destination: the buffer must be this call's own, empty one
+            fresh, why = fresh_empty_buffer(f, c, arg(c, 0))
+            chk.ob('L3', 'template-buffer-fresh[%s]' % f.name, fresh, c.where(), f.name,
+                   'the template is expanded (appended) into %s: %s — from the second logged exec of a process on, the '
+                   'expansion is appended to the previous one' % (render(arg(c, 0)), why),
+                   how='automatic buffer, emptied before the expansion')
     if n == 0:
         raise AnalysisBroken('no template expansion call sites found')
+
+
+def fresh_empty_buffer(f, call, bufexpr):
+    """the destination is automatic storage of f and starts as "" on every path to the call"""
+    d = decl_of(bufexpr)
+    if d is None:
+        return False, 'not a local buffer'
+    target = d
+    decls = {x['id']: x for x in f.local_decls()}
+    x = decls.get(d['id'])
+    if x is not None and 'arrayLen' not in x:
+        # pointer to a local array
+        for e in def_exprs(f, d['id']):
+            dd = decl_of(e)
+            if dd is not None and dd['id'] in decls:
+                target = dd
+                x = decls[dd['id']]
+    if x is None:
+        return False, 'not a local buffer'
+    if x.get('staticStorage') or x.get('staticLocal'):
+        return False, 'the buffer has static storage and keeps its content between calls'
+    if x.get('init', -1) != -1:
+        init = strip(f.nodes[x['init']])
+        if init is not None and (init.k == 'InitListExpr' or (init.k == 'StringLiteral' and init.get('s') == '')):
+            return True, ''
+
+    def resets(e, bid=target['id']):
+        if e.k == 'BinaryOperator' and e['op'] == '=':
+            l = strip(e.ch[0])
+            return l.k == 'ArraySubscriptExpr' and (decl_of(l.ch[0]) or {}).get('id') == bid and \
+                strip(l.ch[1]).get('v') == 0 and strip(e.ch[1]).get('v') == 0
+        return False
+    if C.always_preceded(f, call, resets):
+        return True, ''
+    return False, 'the buffer is not emptied before the expansion'
 
 
 def last_write_is_reset(G, call, bid, resets):
